@@ -71,7 +71,7 @@ def Rec.clean (r : Rec) : Bool :=
 /-- Per-entry consumption choices of the engine. -/
 def predictEnt (e : Ent) (c : String) : Ent :=
   if e.bare then e else
-  if c == "A" || c == "a" || c == "B" then e
+  if c == "A" || c == "a" || c == "B" || c.startsWith "R" then e
   else if c == "S" then { e with len := "-", hash := "-", h10 := "-", h1000 := "-", bst := "ok", flags := "-" }
   else if c == "N" then { e with len := "-", hash := "-", h10 := "-", h1000 := "-", bst := "none", flags := "-" }
   else if c.startsWith "P" then
